@@ -39,6 +39,17 @@ def run(ctx):
         st_evt = A.enclosing_stmt(evt_dict, A.parents(pe.node))
         ids_ = gpe.nodes_of(st_evt) if st_evt is not None else []
         defs = q.reaching_defs(gpe, ids_[0], seq_expr.id) if ids_ else []
+        if len(defs) == 2 and all(d[0] == "assign" and d[1] is not None for d in defs):
+            # `if stream_name in self.<c>: N = self.<c>[stream_name] + 1 else: N = 1` (the dict.get(..., 0) + 1 spelled out)
+            one = [d for d in defs if A.norm(d[1]) == "1"]
+            inc = [d for d in defs if A.norm(d[1]) != "1"]
+            if len(one) == 1 and len(inc) == 1 and isinstance(inc[0][1], ast.BinOp) and isinstance(inc[0][1].left, ast.Subscript) and A.norm(inc[0][1].right) == "1" \
+                    and A.norm(inc[0][1].left.slice) == "stream_name":
+                c = A.chain(inc[0][1].left.value)
+                first_only = q.guard_true_dominates(gpe, one[0][2].stmt, lambda t: A.norm(t) == f"stream_name in {c}", "F") is None or \
+                    q.guard_true_dominates(gpe, one[0][2].stmt, lambda t: A.norm(t) == f"stream_name not in {c}", "T") is None
+                if c and c.startswith("self.") and first_only and any(A.norm(s_) == f"{c}[stream_name] = {seq_expr.id}" for s_ in A.walk_stmts(pe.node.body)):
+                    counter = c[5:]
         if len(defs) == 1 and defs[0][0] == "assign" and defs[0][1] is not None:
             v = defs[0][1]
             if isinstance(v, ast.BinOp) and isinstance(v.op, ast.Add) and A.norm(v.right) == "1":
